@@ -129,3 +129,22 @@ def present_include(prog):
                     fl["default"] = {"id": "b." + fl["default"]["id"]}
     p["files"].append(inc)
     return p
+
+
+def fast_extras():
+    """struct-likes the C10 anchors name: bit-set word boundaries of required fields, struct map keys, deep nesting"""
+    def reqs(n):
+        kinds = ["i32", "string", "bool", "i64", "double"]
+        fs = []
+        for i in range(1, n + 1):
+            fl = F(i, "required", T(kinds[i % len(kinds)]), "r%d" % i)
+            fl["w"] = 1
+            fs.append(fl)
+        return fs
+    return [
+        {"k": "struct", "name": "Req9", "fields": reqs(9)},
+        {"k": "struct", "name": "Req17", "fields": reqs(17)},
+        {"k": "struct", "name": "KeyS", "fields": [F(1, "default", T("map", T("In"), T("string")), "m")]},
+        {"k": "struct", "name": "Deep4", "fields": [
+            F(1, "default", T("list", T("map", T("string"), T("list", T("set", T("i32"))))), "d")]},
+    ]
